@@ -210,7 +210,7 @@ def main(tier, seed):
     try:
         translate()
         run.obligation("translate:_log_like dispatch + call accounting", True)
-    except TranslateError as e:
+    except Exception as e:  # fail closed: anything the translator cannot digest
         run.obligation("translate:_log_like dispatch + call accounting", False, str(e))
     run.prove("Props/C13.v", link_rels=["Link/Dispatch.v"])
     try:
